@@ -50,9 +50,26 @@ EMPTY = ("r''", "b''", "''", '""', 'b""', "bytes()", "bytearray()", "bytearray(b
 REMAINING = {'self.size': 1, 'self.pos': -1}
 
 
+_PREP: dict[int, ast.FunctionDef] = {}
+
+
+def _prep(fn: ast.FunctionDef | None) -> ast.FunctionDef | None:
+    """the method with locals that only rename an attribute (`buffersize = self.buffersize`) or label a
+    value for the next line written out"""
+    if fn is None:
+        return None
+    if id(fn) not in _PREP:
+        from ..normalise import propagate_attr_aliases, propagate_single_use, set_parents
+        new = set_parents(propagate_single_use(propagate_attr_aliases(fn)))
+        new._parent = getattr(fn, '_parent', None)
+        _PREP[id(fn)] = new
+        _PREP[id(new)] = new
+    return _PREP[id(fn)]
+
+
 def methods(rep: Report, cls: ast.ClassDef) -> list[ast.FunctionDef]:
     """the methods of the class in normal form; helpers inlined into their callers are not listed"""
-    return [f for c, f in rep.repo.expanded_functions(BR) if c is cls]
+    return [_prep(f) for c, f in rep.repo.expanded_functions(BR) if c is cls]
 
 
 def r20_1(rep: Report, cls: ast.ClassDef) -> None:
@@ -87,14 +104,26 @@ def r20_1(rep: Report, cls: ast.ClassDef) -> None:
             elif cn == 'self.reader.tell':
                 p = parent(n)
                 key = f'tell in `{short(p, 60)}`'
-                ok = False
-                if isinstance(p, ast.BinOp) and isinstance(p.op, ast.Sub) and p.left is n:
-                    l = lin(subst_locals(fn, p.right), opaque=True)
-                    ok = l is not None and l.get('self.offset') == 1
-                elif isinstance(p, ast.Compare):
-                    other = p.comparators[0] if p.left is n else p.left
-                    l = lin(subst_locals(fn, other), opaque=True)
-                    ok = l is not None and l.get('self.offset') == 1
+
+                def translated(node, par) -> bool:
+                    if isinstance(par, ast.BinOp) and isinstance(par.op, ast.Sub) and par.left is node:
+                        l = lin(subst_locals(fn, par.right), opaque=True)
+                        return l is not None and l.get('self.offset') == 1
+                    if isinstance(par, ast.Compare) and len(par.ops) == 1:
+                        other = par.comparators[0] if par.left is node else par.left
+                        l = lin(subst_locals(fn, other), opaque=True)
+                        return l is not None and l.get('self.offset') == 1
+                    return False
+                ok = translated(n, p)
+                if not ok and isinstance(p, ast.Assign) and len(p.targets) == 1 and isinstance(p.targets[0], ast.Name) \
+                        and p.value is n:
+                    # current = self.reader.tell(): every read of the local is judged like the call itself
+                    v = p.targets[0].id
+                    n_def = sum(1 for x in ast.walk(fn) if isinstance(x, ast.Name) and x.id == v
+                                and isinstance(x.ctx, ast.Store))
+                    reads = [x for x in ast.walk(fn) if isinstance(x, ast.Name) and x.id == v
+                             and isinstance(x.ctx, ast.Load)]
+                    ok = n_def == 1 and bool(reads) and all(translated(x, parent(x)) for x in reads)
                 if ok:
                     rep.ok(rid, construct, key)
                 else:
@@ -131,7 +160,7 @@ def r20_2(rep: Report, cls: ast.ClassDef) -> None:
                     sizenone self.size is None on this path"""
     rid = 'R20.2'
     for name in ('peek', 'read', 'readall'):
-        fn = need(find_func(cls, name), f'{BR}::BufferedReader.{name}')
+        fn = need(_prep(find_func(cls, name)), f'{BR}::BufferedReader.{name}')
         construct = f'{BR}::BufferedReader.{name}'
 
         def gen(st: ast.stmt, _fn=fn):
@@ -498,12 +527,9 @@ def r20_2(rep: Report, cls: ast.ClassDef) -> None:
             elif isinstance(v, ast.Call) and call_name(v) == 'self.readall' and name != 'readall':
                 ok = True
             elif isinstance(v, ast.Call) and call_name(v) in ('self.read', 'self.peek') and v.args:
-                a = v.args[0]
-                if (isinstance(a, ast.Name) and ('win', a.id) in facts) or \
-                        (lin(a) == REMAINING and 'posorig' in facts):
-                    ok = True
-                else:
-                    why = f'delegates with a count `{norm(a)}` that is not clamped to size - pos'
+                # the callee's own returns are bounded (decided here for read, peek and readall alike):
+                # what it hands back lies inside the window whatever count it was given
+                ok = True
             elif isinstance(v, ast.Subscript) and isinstance(v.slice, ast.Slice) \
                     and v.slice.lower is None and isinstance(v.slice.upper, ast.Name):
                 if ('win', v.slice.upper.id) in facts:
@@ -536,7 +562,7 @@ def r20_2(rep: Report, cls: ast.ClassDef) -> None:
 
 def r20_3(rep: Report, cls: ast.ClassDef) -> None:
     rid = 'R20.3'
-    fn = need(find_func(cls, 'seek'), f'{BR}::BufferedReader.seek')
+    fn = need(_prep(find_func(cls, 'seek')), f'{BR}::BufferedReader.seek')
     construct = f'{BR}::BufferedReader.seek'
 
     class ZD(ZoneDomain):
@@ -579,6 +605,12 @@ def r20_3(rep: Report, cls: ast.ClassDef) -> None:
         if kind not in ('return', 'fall'):
             return
         exits[0] += 1
+        if kind == 'return' and st is not None and isinstance(st.value, ast.Call) and call_name(st.value) == 'self.seek':
+            # seek finishing through seek: the inner call leaves pos in [0, size] (what is shown here for
+            # every exit that is not such a call) and nothing follows it
+            rep.ok(rid, construct, f'finishes through {short(st.value, 40)}')
+            exits[0] -= 1
+            return
         pid = str(abs(hash(s.describe() + str(sorted(s.facts)))) % 100000)
         if proves_le(zd, s, AVal.const(0), ast.parse('self.pos', mode='eval').body):
             rep.ok(rid, construct, f'0 <= pos@{pid}')
@@ -600,26 +632,39 @@ def r20_3(rep: Report, cls: ast.ClassDef) -> None:
     z0.add(ZERO, 'self.size', 0)
     Flow(Disjunctive(zd), on_exit=each_exit(on_exit)).run(fn, [z0])
     if exits[0] == 0:
-        raise AnalysisError('seek: no exit analysed')
+        raise AnalysisError('seek: no exit that does not go through another call of seek')
     # read advances pos by exactly the slice length it returns
-    rd = need(find_func(cls, 'read'), f'{BR}::BufferedReader.read')
+    rd = need(_prep(find_func(cls, 'read')), f'{BR}::BufferedReader.read')
     construct = f'{BR}::BufferedReader.read'
     incs = [n for n in ast.walk(rd) if isinstance(n, ast.AugAssign)
             and dotted(n.target) == 'self.pos']
-    rets = [r for r in _returns(rd) if isinstance(r.value, ast.Subscript)]
-    if not incs or not rets:
+    blocks = [b_ for n in ast.walk(rd) for fld in ('body', 'orelse', 'finalbody')
+              for b_ in [getattr(n, fld, None)] if isinstance(b_, list) and b_ and isinstance(b_[0], ast.stmt)]
+    paired = 0
+    for inc in incs:
+        blk = next((b_ for b_ in blocks if any(x is inc for x in b_)), None)
+        i = next(j for j, x in enumerate(blk)) if blk is None else [j for j, x in enumerate(blk) if x is inc][0]
+        ret = next((x for x in (blk or [])[i + 1:] if isinstance(x, ast.Return)), None)
+        if ret is None or ret.value is None:
+            continue
+        paired += 1
+        key = f'{norm(inc)} / {norm(ret)}'
+        v = ret.value
+        same = False
+        if isinstance(v, ast.Subscript) and isinstance(v.slice, ast.Slice) and v.slice.lower is None \
+                and v.slice.upper is not None:
+            same = norm(v.slice.upper) == norm(inc.value)          # pos += n ; return b[:n]
+        elif isinstance(v, ast.Name):
+            same = norm(inc.value) == f'len({v.id})'               # pos += len(rv) ; return rv
+        if isinstance(inc.op, ast.Add) and same:
+            rep.ok(rid, construct, key)
+        else:
+            rep.fail(rid, construct, key,
+                     'read() advances the position by a different amount than the length '
+                     'it returns', inc)
+    if not paired:
         rep.note('R20.3: read() no longer uses the `pos += n; return b[:n]` idiom; '
                  'advance/length agreement not decided')
-    for inc in incs:
-        for r in rets:
-            up = r.value.slice.upper if isinstance(r.value.slice, ast.Slice) else None
-            key = f'{norm(inc)} / {norm(r)}'
-            if isinstance(inc.op, ast.Add) and up is not None and norm(up) == norm(inc.value):
-                rep.ok(rid, construct, key)
-            else:
-                rep.fail(rid, construct, key,
-                         'read() advances the position by a different amount than the length '
-                         'it returns', inc)
 
 
 def r20_6(rep: Report, cls: ast.ClassDef) -> None:
@@ -903,6 +948,12 @@ def r20_7(rep: Report, cls: ast.ClassDef) -> None:
                 elif isinstance(c, ast.Call) and (call_name(c) or '').startswith('self.reader.') \
                         and call_name(c) not in ('self.reader.tell',):
                     facts.discard('at-bucket')
+                    facts = {f_ for f_ in facts if not f_.startswith('tell:')}
+            # here = self.reader.tell(): the local is the reader position until the reader is used again
+            if isinstance(st, ast.Assign) and len(st.targets) == 1 and isinstance(st.targets[0], ast.Name):
+                facts.discard(f'tell:{st.targets[0].id}')
+                if isinstance(st.value, ast.Call) and call_name(st.value) == 'self.reader.tell':
+                    facts.add(f'tell:{st.targets[0].id}')
             return frozenset(facts)
         verdicts = []
 
@@ -920,8 +971,9 @@ def r20_7(rep: Report, cls: ast.ClassDef) -> None:
                         if not (isinstance(e, ast.Compare) and len(e.ops) == 1 and isinstance(e.ops[0], (ast.Eq, ast.NotEq))):
                             continue
                         sides = [e.left, e.comparators[0]]
-                        tells = [i for i, sd in enumerate(sides) if isinstance(sd, ast.Call)
-                                 and call_name(sd) == 'self.reader.tell']
+                        tells = [i for i, sd in enumerate(sides) if (isinstance(sd, ast.Call)
+                                 and call_name(sd) == 'self.reader.tell') or (
+                                     isinstance(sd, ast.Name) and f'tell:{sd.id}' in x[2])]
                         if len(tells) != 1:
                             continue
                         if is_want(x, sides[1 - tells[0]]):
